@@ -165,10 +165,14 @@ class Equal(Logic):
         
         xor = self.wire('xor', w)
         
+        # the inverting last gate must work on one bit: on a wider result
+        # wire it would fill the upper bits with ones
+        eq = r if (r.getWidth() == 1) else self.wire('eq', 1)
+        
         if (w == 1):
             # simple case
             Xor2(self, 'xor', a, b, xor)
-            Not(self, 'not', xor, r)
+            Not(self, 'not', xor, eq)
             
         else:
             Xor2(self, 'xor', a, b, xor)
@@ -176,7 +180,10 @@ class Equal(Logic):
             bits = self.wires('bits', w, 1)
             BitsLSBF(self, 'bits', xor, bits)
             
-            Nor(self, 'nor', bits, r)
+            Nor(self, 'nor', bits, eq)
+            
+        if not(eq is r):
+            Buf(self, 'eq', eq, r)
         
 class Comparator(Logic):
 
